@@ -475,25 +475,30 @@ pub fn array_reduce(
         (first, 1)
     };
 
+    let mut accumulator_guard = None;
     for i in start_index..length {
         if has_array_like_element(&arr, i) {
             let elem = get_array_like_element(&arr, i);
 
             let Guarded {
                 value: acc,
-                guard: _acc_guard,
+                guard: acc_guard,
             } = interp.call_function(
                 callback.clone(),
                 JsValue::Undefined,
                 &[accumulator, elem, JsValue::Number(i as f64), this.clone()],
             )?;
             accumulator = acc;
+            // Keep the callback's result rooted until the next callback has received it
+            accumulator_guard = acc_guard;
         }
     }
 
-    // Accumulator is a derived value - no guard needed as it's either a primitive
-    // or an object from the array/callback which is already owned
-    Ok(Guarded::unguarded(accumulator))
+    // The accumulator may be an object only the last callback result's guard keeps alive
+    Ok(Guarded {
+        value: accumulator,
+        guard: accumulator_guard,
+    })
 }
 
 pub fn array_find(
@@ -1301,6 +1306,10 @@ pub fn array_from(
     let _source_guard = interp.guard_value(&source);
     let _map_fn_guard = map_fn.as_ref().and_then(|m| interp.guard_value(m));
 
+    // Roots the result array and, until it exists, every mapped element: the guard returned by
+    // the map callback is dropped at the end of each iteration, and later callbacks allocate.
+    let guard = interp.heap.create_guard();
+
     let mut elements = Vec::new();
 
     match source {
@@ -1331,6 +1340,9 @@ pub fn array_from(
                     } else {
                         elem
                     };
+                    if let JsValue::Object(obj) = &mapped {
+                        guard.guard(obj.cheap_clone());
+                    }
                     elements.push(mapped);
                 }
             } else {
@@ -1408,6 +1420,9 @@ pub fn array_from(
                                     } else {
                                         elem
                                     };
+                                    if let JsValue::Object(obj) = &mapped {
+                                        guard.guard(obj.cheap_clone());
+                                    }
                                     elements.push(mapped);
                                     i += 1;
                                 } else {
@@ -1440,13 +1455,15 @@ pub fn array_from(
                 } else {
                     elem
                 };
+                if let JsValue::Object(obj) = &mapped {
+                    guard.guard(obj.cheap_clone());
+                }
                 elements.push(mapped);
             }
         }
         _ => {}
     }
 
-    let guard = interp.heap.create_guard();
     let arr = interp.create_array_from(&guard, elements);
     Ok(Guarded::with_guard(JsValue::Object(arr), guard))
 }
@@ -1572,6 +1589,7 @@ pub fn array_reduce_right(
         (elem, length as i64 - 2)
     };
 
+    let mut accumulator_guard = None;
     for i in (0..=start_index).rev() {
         let elem = arr
             .borrow()
@@ -1579,7 +1597,7 @@ pub fn array_reduce_right(
             .unwrap_or(JsValue::Undefined);
         let Guarded {
             value: result,
-            guard: _result_guard,
+            guard: result_guard,
         } = interp.call_function(
             callback.clone(),
             JsValue::Undefined,
@@ -1591,10 +1609,15 @@ pub fn array_reduce_right(
             ],
         )?;
         accumulator = result;
+        // Keep the callback's result rooted until the next callback has received it
+        accumulator_guard = result_guard;
     }
 
-    // Accumulator is a derived value - no guard needed
-    Ok(Guarded::unguarded(accumulator))
+    // The accumulator may be an object only the last callback result's guard keeps alive
+    Ok(Guarded {
+        value: accumulator,
+        guard: accumulator_guard,
+    })
 }
 
 pub fn array_flat(
@@ -2166,6 +2189,7 @@ fn array_iterator_next(
         Ok(Guarded::with_guard(JsValue::Object(result), guard))
     } else {
         // Get value through proxy if needed
+        let _value_guard;
         let value = if is_proxy {
             let result = super::proxy::proxy_get(
                 interp,
@@ -2173,6 +2197,9 @@ fn array_iterator_next(
                 PropertyKey::Index(index),
                 JsValue::Object(arr.cheap_clone()),
             )?;
+            // The trap may return a fresh object: keep its guard until the value is stored
+            // in the result object below (creating that object allocates).
+            _value_guard = result.guard;
             result.value
         } else {
             arr.borrow()
